@@ -30,7 +30,10 @@ pub(crate) fn scan_dimen<S: TexlangState>(
             // TeX.2021.449
             use super::integer::InternalNumber;
             match super::integer::parse_internal_number(input, first_token, command_ref)? {
-                InternalNumber::Integer(i) => (negative * i.signum(), i.abs(), Scaled::ZERO),
+                // |-2^31| is not representable: saturate, every unit then reports an overflow
+                InternalNumber::Integer(i) => {
+                    (negative * i.signum(), i.saturating_abs(), Scaled::ZERO)
+                }
                 // TeX.2021.449: goto attach_sign, which range-checks the internal dimension
                 InternalNumber::Dimen(d) => {
                     return Ok(check_range(input, first_token, d)? * negative);
@@ -154,9 +157,12 @@ pub(crate) fn scan_and_apply_units<S: TexlangState>(
             }
         };
         if let Some(v) = v_or {
-            let adjusted_fractional_part = v
-                .xn_over_d(fractional_part.0, Scaled::ONE.0)
-                .expect("n<d=Scaled::ONE, so overflow can't occur");
+            // n<=d=Scaled::ONE bounds the result by |v|, which exceeds the legal range when v
+            // is an integer register or a dimension grown by \advance
+            let adjusted_fractional_part = match v.xn_over_d(fractional_part.0, Scaled::ONE.0) {
+                Ok(a) => a,
+                Err(_) => return handle_overflow(input, first_token, false),
+            };
             return match v.nx_plus_y(integer_part, adjusted_fractional_part.0) {
                 Ok(s) => Ok(s),
                 Err(_) => handle_overflow(input, first_token, v < Scaled::ZERO),
